@@ -18,7 +18,10 @@ template <class G> struct Alg {
       o.end();
     }
   }
-  static void algebra(Rng& r) {
+  static void algebra(Rng&) {
+    // inputs depend on the GROUP only (not on the order of the jobs), so that the same call can be compared across
+    // processes that ran the jobs in different orders (C09: results do not depend on earlier calls)
+    Rng r(std::hash<std::string>()(Info<G>::name() + ScalarName<S>::n()));
     T a, b; for (int i = 0; i < T::DoF; ++i) { a.coeffs()(i) = (S)r.i(-2, 2); b.coeffs()(i) = (S)r.i(-2, 2); }
     typename T::LieAlg A = a.hat(); T v = T::Vee(A); T br = T::Bracket(a, b);
     hd("algebra"); Out& o = out(); o.vec("t", a.coeffs()); o.vec("s", b.coeffs()); o.mat("hat", A); o.vec("vee", v.coeffs()); o.vec("br", br.coeffs());
